@@ -9,14 +9,14 @@
     invariant
         w.out() + enc_uint(value as nat) == old(w).out() + enc_uint(v0 as nat),
     decreases value,
-@before 1 `stmt:let b`
+@loopstart 1
     proof {
         assert(value >> 7 < value && (value >> 7) == value / 128
             && (((value & 0b01111111) as u8) | 0b10000000) == (value % 128 + 128) as u8) by(bit_vector)
             requires value >= 128;
         assert(w.out().push((value % 128 + 128) as u8) + enc_uint((value / 128) as nat) =~= w.out() + enc_uint(value as nat));
     }
-@before 3 `stmt:call write_u8`
+@afterloop 1
     proof {
         assert(((value & 0b01111111) as u8) == value as u8) by(bit_vector) requires value < 128;
         assert(w.out().push(value as u8) =~= w.out() + enc_uint(value as nat));
@@ -32,14 +32,14 @@
     invariant
         w.out() + enc_uint(value as nat) == old(w).out() + enc_uint(v0 as nat),
     decreases value,
-@before 1 `stmt:let b`
+@loopstart 1
     proof {
         assert(value >> 7 < value && (value >> 7) == value / 128
             && (((value & 0b01111111) as u8) | 0b10000000) == (value % 128 + 128) as u8) by(bit_vector)
             requires value >= 128;
         assert(w.out().push((value % 128 + 128) as u8) + enc_uint((value / 128) as nat) =~= w.out() + enc_uint(value as nat));
     }
-@before 3 `stmt:call write_u8`
+@afterloop 1
     proof {
         assert(((value & 0b01111111) as u8) == value as u8) by(bit_vector) requires value < 128;
         assert(w.out().push(value as u8) =~= w.out() + enc_uint(value as nat));
